@@ -1,7 +1,9 @@
 use std::cmp::Ordering;
 
 use rusty_common::*;
-use rusty_parser::{AsBareName, Expression, ExpressionPos, Operator, TypeQualifier, UnaryOperator};
+use rusty_parser::{
+    AsBareName, Expression, ExpressionPos, ExpressionType, Operator, TypeQualifier, UnaryOperator,
+};
 use rusty_variant::Variant;
 
 use crate::core::{CastVariant, LintError, LintErrorPos};
@@ -158,8 +160,16 @@ where
                 .map_err(|e| e.at(child))
             }
             Expression::Parenthesis(child) => self.eval_const(child),
-            Expression::Property(_, _, _)
-            | Expression::FunctionCall(_, _)
+            // a name with dots such as `A.B` can be the name of a constant
+            Expression::Property(_, _, _) => match expression.fold_name() {
+                Some(folded_name) => {
+                    let folded_expr =
+                        Expression::Variable(folded_name, ExpressionType::Unresolved).at_pos(*pos);
+                    self.eval_const(&folded_expr)
+                }
+                _ => Err(LintError::InvalidConstant.at_pos(*pos)),
+            },
+            Expression::FunctionCall(_, _)
             | Expression::ArrayElement(_, _, _)
             | Expression::BuiltInFunctionCall(_, _) => Err(LintError::InvalidConstant.at_pos(*pos)),
         }
